@@ -145,42 +145,8 @@ func parseTSPLIB(data []byte) (*tspDoc, *parseErr) {
 // write: the problem is a TSP of DIMENSION n with EXPLICIT weights in
 // LOWER_DIAG_ROW format; row i = want(i,0) ... want(i,i-1) 0; EOF.
 func checkDoc(d *tspDoc, n int, want func(i, j int) int64) *parseErr {
-	need := func(k, v string) *parseErr {
-		got, ok := d.Spec[k]
-		if !ok {
-			return perr("missing-"+k, "no %s line", k)
-		}
-		if got != v {
-			return perr("wrong-"+k, "%s is %q, want %q", k, got, v)
-		}
-		return nil
-	}
-	if e := need("TYPE", "TSP"); e != nil {
+	if e := checkSpec(d.Spec, d.WeightStart >= 0, n); e != nil {
 		return e
-	}
-	dim, ok := d.Spec["DIMENSION"]
-	if !ok {
-		return perr("missing-DIMENSION", "no DIMENSION line")
-	}
-	if v, err := strconv.ParseInt(dim, 10, 64); err != nil || v != int64(n) {
-		return perr("wrong-DIMENSION", "DIMENSION is %q, want %d", dim, n)
-	}
-	if e := need("EDGE_WEIGHT_TYPE", "EXPLICIT"); e != nil {
-		return e
-	}
-	if e := need("EDGE_WEIGHT_FORMAT", "LOWER_DIAG_ROW"); e != nil {
-		return e
-	}
-	// No coordinates are written, so the only display type that is
-	// consistent is NO_DISPLAY (it is also the default when absent).
-	if v, ok := d.Spec["DISPLAY_DATA_TYPE"]; ok && v != "NO_DISPLAY" {
-		return perr("wrong-DISPLAY_DATA_TYPE", "DISPLAY_DATA_TYPE is %q but no display data follows", v)
-	}
-	if v, ok := d.Spec["NODE_COORD_TYPE"]; ok && v != "NO_COORDS" {
-		return perr("wrong-NODE_COORD_TYPE", "NODE_COORD_TYPE is %q but no coordinates follow", v)
-	}
-	if d.WeightStart < 0 {
-		return perr("missing-EDGE_WEIGHT_SECTION", "no EDGE_WEIGHT_SECTION")
 	}
 	// the numbers, read as TSPLIB readers do (a stream), then the row structure
 	var flat []int64
@@ -198,10 +164,7 @@ func checkDoc(d *tspDoc, n int, want func(i, j int) int64) *parseErr {
 				w = want(i, j)
 			}
 			if flat[k] != w {
-				if j == i {
-					return perr("nonzero-diagonal", "entry (%d,%d) is %d, want 0", i, j, flat[k])
-				}
-				return perr("wrong-weight", "entry (%d,%d) is %d, want weights(%d,%d) = %d", i, j, flat[k], i, j, w)
+				return wrongEntry(i, j, flat[k], w)
 			}
 			k++
 		}
@@ -220,15 +183,96 @@ func checkDoc(d *tspDoc, n int, want func(i, j int) int64) *parseErr {
 	return nil
 }
 
+func wrongEntry(i, j int, got, w int64) *parseErr {
+	if j == i {
+		return perr("nonzero-diagonal", "entry (%d,%d) is %d, want 0", i, j, got)
+	}
+	return perr("wrong-weight", "entry (%d,%d) is %d, want weights(%d,%d) = %d", i, j, got, i, j, w)
+}
+
+// checkSpec: the specification part of what LIB(w, n, weights) has to write
+// (shared by the reader of whole documents and the streaming reader of
+// volume.go).  hasSection: an EDGE_WEIGHT_SECTION line was seen.
+func checkSpec(spec map[string]string, hasSection bool, n int) *parseErr {
+	need := func(k, v string) *parseErr {
+		got, ok := spec[k]
+		if !ok {
+			return perr("missing-"+k, "no %s line", k)
+		}
+		if got != v {
+			return perr("wrong-"+k, "%s is %q, want %q", k, got, v)
+		}
+		return nil
+	}
+	if e := need("TYPE", "TSP"); e != nil {
+		return e
+	}
+	dim, ok := spec["DIMENSION"]
+	if !ok {
+		return perr("missing-DIMENSION", "no DIMENSION line")
+	}
+	if v, err := strconv.ParseInt(dim, 10, 64); err != nil || v != int64(n) {
+		return perr("wrong-DIMENSION", "DIMENSION is %q, want %d", dim, n)
+	}
+	if e := need("EDGE_WEIGHT_TYPE", "EXPLICIT"); e != nil {
+		return e
+	}
+	if e := need("EDGE_WEIGHT_FORMAT", "LOWER_DIAG_ROW"); e != nil {
+		return e
+	}
+	// No coordinates are written, so the only display type that is
+	// consistent is NO_DISPLAY (it is also the default when absent).
+	if v, ok := spec["DISPLAY_DATA_TYPE"]; ok && v != "NO_DISPLAY" {
+		return perr("wrong-DISPLAY_DATA_TYPE", "DISPLAY_DATA_TYPE is %q but no display data follows", v)
+	}
+	if v, ok := spec["NODE_COORD_TYPE"]; ok && v != "NO_COORDS" {
+		return perr("wrong-NODE_COORD_TYPE", "NODE_COORD_TYPE is %q but no coordinates follow", v)
+	}
+	if !hasSection {
+		return perr("missing-EDGE_WEIGHT_SECTION", "no EDGE_WEIGHT_SECTION")
+	}
+	return nil
+}
+
+// readerCorpus: a hand-written document in the layout of the TSPLIB 95
+// description (spaces around ':' as printed there, free alignment of the
+// numbers), its weights, and corrupted versions of it with the kind of error a
+// reader has to report.
+func readerCorpus() (good string, w func(i, j int) int64, bad []struct{ kind, doc string }) {
+	good = "NAME : tiny\nCOMMENT : three cities\nTYPE : TSP\nDIMENSION : 3\nEDGE_WEIGHT_TYPE : EXPLICIT\n" +
+		"EDGE_WEIGHT_FORMAT : LOWER_DIAG_ROW\nEDGE_WEIGHT_SECTION\n0\n  -5 0\n 7\t9223372036854775807   0\nEOF\n"
+	w = func(i, j int) int64 {
+		return map[[2]int]int64{{1, 0}: -5, {2, 0}: 7, {2, 1}: 9223372036854775807}[[2]int{i, j}]
+	}
+	bad = []struct{ kind, doc string }{
+		{"wrong-DIMENSION", strings.Replace(good, "DIMENSION : 3", "DIMENSION : 4", 1)},
+		{"missing-DIMENSION", strings.Replace(good, "DIMENSION : 3\n", "", 1)},
+		{"wrong-TYPE", strings.Replace(good, "TYPE : TSP", "TYPE : ATSP", 1)},
+		{"wrong-EDGE_WEIGHT_FORMAT", strings.Replace(good, "LOWER_DIAG_ROW", "UPPER_DIAG_ROW", 1)},
+		{"wrong-EDGE_WEIGHT_TYPE", strings.Replace(good, "EXPLICIT", "EUC_2D", 1)},
+		{"wrong-weight", strings.Replace(good, "-5", "5", 1)},
+		{"wrong-weight", strings.Replace(good, "9223372036854775807", "9223372036854775806", 1)},
+		{"nonzero-diagonal", strings.Replace(good, "-5 0", "-5 1", 1)},
+		{"wrong-weight-count", strings.Replace(good, "  -5 0\n", "", 1)},
+		{"wrong-weight-count", strings.Replace(good, "-5 0", "-5 0 0", 1)},
+		{"wrong-row-count", strings.Replace(good, "0\n  -5 0", "0  -5 0", 1)},
+		{"wrong-row-length", strings.Replace(good, "0\n  -5 0", "0 -5\n 0", 1)},
+		{"missing-EOF", strings.Replace(good, "EOF\n", "", 1)},
+		{"data-after-EOF", good + "1\n"},
+		{"malformed-weights", strings.Replace(good, "-5", "-5.0", 1)},
+		{"malformed-weights", strings.Replace(good, "9223372036854775807", "9223372036854775808", 1)},
+		{"malformed-header", strings.Replace(good, "NAME :", "NAMES :", 1)},
+		{"malformed-header", strings.Replace(good, "TYPE : TSP\n", "TYPE : TSP\nTYPE : TSP\n", 1)},
+		{"malformed-header", strings.Replace(good, "EDGE_WEIGHT_SECTION", "EDGE_WEIGHT", 1)},
+		{"wrong-DISPLAY_DATA_TYPE", "DISPLAY_DATA_TYPE: TWOD_DISPLAY\n" + good},
+		{"not-text", strings.Replace(good, "tiny", "t\x00ny", 1)},
+	}
+	return
+}
+
 func init() {
 	selfcheck.Add("c20: TSPLIB reader", func() error {
-		// hand-written document in the layout of the TSPLIB 95 description
-		// (spaces around ':' as printed there, free alignment of the numbers)
-		good := "NAME : tiny\nCOMMENT : three cities\nTYPE : TSP\nDIMENSION : 3\nEDGE_WEIGHT_TYPE : EXPLICIT\n" +
-			"EDGE_WEIGHT_FORMAT : LOWER_DIAG_ROW\nEDGE_WEIGHT_SECTION\n0\n  -5 0\n 7\t9223372036854775807   0\nEOF\n"
-		w := func(i, j int) int64 {
-			return map[[2]int]int64{{1, 0}: -5, {2, 0}: 7, {2, 1}: 9223372036854775807}[[2]int{i, j}]
-		}
+		good, w, bad := readerCorpus()
 		d, e := parseTSPLIB([]byte(good))
 		if e != nil {
 			return fmt.Errorf("good document rejected: %v", e)
@@ -243,29 +287,6 @@ func init() {
 		d, e = parseTSPLIB([]byte("TYPE: TSP\nDIMENSION: 0\nEDGE_WEIGHT_TYPE: EXPLICIT\nEDGE_WEIGHT_FORMAT: LOWER_DIAG_ROW\nEDGE_WEIGHT_SECTION\nEOF\n"))
 		if e != nil || checkDoc(d, 0, w) != nil {
 			return fmt.Errorf("empty problem rejected")
-		}
-		bad := []struct{ kind, doc string }{
-			{"wrong-DIMENSION", strings.Replace(good, "DIMENSION : 3", "DIMENSION : 4", 1)},
-			{"missing-DIMENSION", strings.Replace(good, "DIMENSION : 3\n", "", 1)},
-			{"wrong-TYPE", strings.Replace(good, "TYPE : TSP", "TYPE : ATSP", 1)},
-			{"wrong-EDGE_WEIGHT_FORMAT", strings.Replace(good, "LOWER_DIAG_ROW", "UPPER_DIAG_ROW", 1)},
-			{"wrong-EDGE_WEIGHT_TYPE", strings.Replace(good, "EXPLICIT", "EUC_2D", 1)},
-			{"wrong-weight", strings.Replace(good, "-5", "5", 1)},
-			{"wrong-weight", strings.Replace(good, "9223372036854775807", "9223372036854775806", 1)},
-			{"nonzero-diagonal", strings.Replace(good, "-5 0", "-5 1", 1)},
-			{"wrong-weight-count", strings.Replace(good, "  -5 0\n", "", 1)},
-			{"wrong-weight-count", strings.Replace(good, "-5 0", "-5 0 0", 1)},
-			{"wrong-row-count", strings.Replace(good, "0\n  -5 0", "0  -5 0", 1)},
-			{"wrong-row-length", strings.Replace(good, "0\n  -5 0", "0 -5\n 0", 1)},
-			{"missing-EOF", strings.Replace(good, "EOF\n", "", 1)},
-			{"data-after-EOF", good + "1\n"},
-			{"malformed-weights", strings.Replace(good, "-5", "-5.0", 1)},
-			{"malformed-weights", strings.Replace(good, "9223372036854775807", "9223372036854775808", 1)},
-			{"malformed-header", strings.Replace(good, "NAME :", "NAMES :", 1)},
-			{"malformed-header", strings.Replace(good, "TYPE : TSP\n", "TYPE : TSP\nTYPE : TSP\n", 1)},
-			{"malformed-header", strings.Replace(good, "EDGE_WEIGHT_SECTION", "EDGE_WEIGHT", 1)},
-			{"wrong-DISPLAY_DATA_TYPE", "DISPLAY_DATA_TYPE: TWOD_DISPLAY\n" + good},
-			{"not-text", strings.Replace(good, "tiny", "t\x00ny", 1)},
 		}
 		for i, b := range bad {
 			d, e := parseTSPLIB([]byte(b.doc))
